@@ -270,7 +270,7 @@ func main() {
 		"code; plus malformed headers (missing / odd-length raw addresses). non-trivial = serialization succeeded"
 	rng := vgen.NewRand(run.Seed)
 
-	n := run.Count(320, 12000)
+	n := run.Count(320, 5000)
 	for i := 0; i < n; i++ {
 		r := rng.Fork(uint64(i))
 		var h hdr
@@ -317,9 +317,6 @@ func main() {
 		nflips := 4
 		if i%10 == 0 {
 			nflips = 24
-		}
-		if thorough {
-			nflips *= 2
 		}
 		fr := r.Fork(7)
 		if !run.Want() {
